@@ -645,7 +645,7 @@ func init() {
 		// ---- CBO / LCOM: filterClasses(classes, req) ------------------------------------------------------
 		type classSite struct {
 			file, recv, itemT, metricsT, field, reqT, minF, maxF, name string
-			zeros                                                       bool
+			zeros                                                      bool
 		}
 		for _, cs := range []classSite{
 			{"cbo_service.go", "CBOServiceImpl", "ClassCoupling", "CBOMetrics", "CouplingCount", "CBORequest", "MinCBO", "MaxCBO", "cbo", true},
